@@ -30,12 +30,81 @@ func checkC19(p *Prog, r *Report) {
 	rArm := r.Rule("timer-armed", "the timer is armed when muting and on every suppressed write, for lastPlainWrite+PlainWritePause")
 	rLock := r.Rule("one-lock", "every access to the mute state happens with Shell.wL held")
 
-	sil := p.Field(opsPkg, "Shell", "silenced")
-	last := p.Field(opsPkg, "Shell", "lastPlainWrite")
-	tim := p.Field(opsPkg, "Shell", "silenceTimer")
-	wl := p.Field(opsPkg, "Shell", "wL")
+	/* The mute state is identified by what is done with it, wherever it sits
+	in the Shell (loose fields or a nested struct, whatever the names):
+	the timer is the *time.Timer storage which receives time.AfterFunc's
+	result; the flag is the boolean storage written by the function given to
+	AfterFunc; the time of the last suppressed write is the time.Time
+	storage which receives time.Now(); the lock is the mutex the
+	plain-write function takes. */
+	var sil, last, tim, wl *types.Var
+	{
+		inShell := map[*types.Var]bool{}
+		if pk := p.Pkg(opsPkg); nil != pk {
+			if tn, ok := pk.Types.Scope().Lookup("Shell").(*types.TypeName); ok {
+				for _, l := range brokerLeaves(tn.Type(), "s", nil, 0) {
+					if nil != l.Var {
+						inShell[l.Var] = true
+					}
+				}
+			}
+		}
+		var tfn *ssa.Function
+		for _, fn := range p.Funcs() {
+			eachInstr(fn, func(i ssa.Instruction) {
+				st, ok := i.(*ssa.Store)
+				if !ok {
+					return
+				}
+				fv, _ := fieldAddrOf(st.Addr)
+				if nil == fv || !inShell[fv] {
+					return
+				}
+				if c, ok := st.Val.(*ssa.Call); ok {
+					switch calleeName(c.Common()) {
+					case "time.AfterFunc":
+						if nil == tim {
+							tim = fv
+							tfn, _ = closureOf(c.Common().Args[1])
+						}
+					case "time.Now":
+						if nil == last && typeIs(fv.Type(), "time", "Time") {
+							last = fv
+						}
+					}
+				}
+			})
+		}
+		if nil != tfn {
+			for _, f := range withAnons(tfn) {
+				eachInstr(f, func(i ssa.Instruction) {
+					if st, ok := i.(*ssa.Store); ok {
+						if fv, _ := fieldAddrOf(st.Addr); nil != fv && inShell[fv] && isBoolType(fv.Type()) && nil == sil {
+							sil = fv
+						}
+					}
+				})
+			}
+		}
+		if wpf := p.Func(opsPkg, "Shell", "writePlain"); nil != wpf {
+			/* Directly, or in the one caller which locks around it. */
+			cands := []*ssa.Function{wpf}
+			for _, ci := range p.callersOf(wpf) {
+				cands = append(cands, ci.Parent())
+			}
+			for _, f := range cands {
+				eachInstr(f, func(i ssa.Instruction) {
+					if c := callCommon(i); nil != c && "(*sync.Mutex).Lock" == calleeName(c) && nil == wl {
+						if fv, _ := fieldAddrOf(c.Args[0]); nil != fv && inShell[fv] {
+							wl = fv
+						}
+					}
+				})
+			}
+		}
+	}
 	if nil == sil || nil == last || nil == tim || nil == wl {
-		rAnch.Unproven("opshell.Shell", token.NoPos, "fields silenced/lastPlainWrite/silenceTimer/wL not found")
+		rAnch.Unproven("opshell.Shell", token.NoPos, "the mute state was not identified in opshell.Shell (flag written by the AfterFunc function: %v; time.Now() storage: %v; AfterFunc timer: %v; lock of the plain-write path: %v)", nil != sil, nil != last, nil != tim, nil != wl)
 		return
 	}
 	/* PlainWritePause. */
@@ -222,6 +291,43 @@ func checkC19(p *Prog, r *Report) {
 					ifi := blockIf(b)
 					if nil == ifi {
 						continue
+					}
+					/* time.Now().Before(last.Add(pause)) and its relatives. */
+					if dc := decodeCond(ifi.Cond); nil == dc.Y {
+						if tc, isCall := dc.X.(*ssa.Call); isCall {
+							name := calleeName(tc.Common())
+							if "(time.Time).Before" == name || "(time.Time).After" == name {
+								now, deadline := tc.Common().Args[0], tc.Common().Args[1]
+								flipped := false
+								if nc, isNow := now.(*ssa.Call); !isNow || "time.Now" != calleeName(nc.Common()) {
+									now, deadline, flipped = deadline, now, true
+								}
+								nc, isNow := now.(*ssa.Call)
+								ac, isAdd := deadline.(*ssa.Call)
+								if isNow && isAdd && "time.Now" == calleeName(nc.Common()) && "(time.Time).Add" == calleeName(ac.Common()) {
+									fvL, _ := loadedField(ac.Common().Args[0])
+									kk, isC := constInt(ac.Common().Args[1])
+									if fvL == last && isC {
+										if kk != pause {
+											rUn.Bad(fnName(fn)+":pause-constant", posOf(ifi), "the calm test compares with %dns, not PlainWritePause", kk)
+										}
+										/* now.Before(deadline): not elapsed when true. */
+										notElapsedOnTrue := ("(time.Time).Before" == name) != flipped
+										if !dc.Eq {
+											notElapsedOnTrue = !notElapsedOnTrue
+										}
+										elapsedSucc := 0
+										if notElapsedOnTrue {
+											elapsedSucc = 1
+										}
+										calm, notCalm = ifi, 1-elapsedSucc
+										if edgeDominates(ifi, elapsedSucc, st) {
+											okEdge = true
+										}
+									}
+								}
+							}
+						}
 					}
 					bo, ok := ifi.Cond.(*ssa.BinOp)
 					if !ok {
